@@ -89,4 +89,59 @@ Section Get.
   Definition focus_from (pre : list seg) (n : dm) (q : list seg)
     : res gerr (dm * list seg * option (list seg * bytes)) :=
     do r <- get_last n [] q None; Ok (fst r, pre ++ q, snd r).
+
+  (* the LinkContext get hands to the prototype chooser and the loader at every link it dereferences, as coded:
+     LinkPath = p.Truncate(i) (the path of the CONTAINER, relative to the node the focus started from — the walk passes
+     the path of the link itself), LinkNode = the link node, ParentNode = the container, or the previous link node
+     when a block's root is itself a link.  The log is kept also when a later step fails. *)
+  Fixpoint deref_ctx (fuel : nat) (lp : list seg) (v prev : dm) : list (list seg * dm * dm) * res gerr dm :=
+    match v with
+    | DLink c => match fuel with
+                 | O => ([], Err GFuel)
+                 | S f => match assoc c g with
+                          | None => ([(lp, v, prev)], Err GLoad)
+                          | Some b => let '(l, r) := deref_ctx f lp b v in ((lp, v, prev) :: l, r)
+                          end
+                 end
+    | _ => ([], Ok v)
+    end.
+
+  Fixpoint get_ctx (n : dm) (done p : list seg) : list (list seg * dm * dm) * res gerr dm :=
+    match p with
+    | [] => ([], Ok n)
+    | sg :: r =>
+        match step n sg with
+        | Err e => ([], Err e)
+        | Ok v => match deref_ctx (S (length g)) done v n with
+                  | (l, Err e) => (l, Err e)
+                  | (l, Ok v') => let '(l', r') := get_ctx v' (done ++ [sg]) r in (l ++ l', r')
+                  end
+        end
+    end.
 End Get.
+
+(* traversal.WalkLocal: every node of the tree, pre-order, children in iteration order, links not followed; the path of
+   a map child is built with AppendSegmentString(key) — ONE segment, whatever the key contains — of a list child with
+   AppendSegmentInt(index) *)
+Fixpoint walk_local (fuel : nat) (P : list seg) (n : dm) : list (list seg * dm) :=
+  match fuel with
+  | O => []
+  | S f => (P, n) :: flat_map (fun k => walk_local f (P ++ [fst k]) (snd k)) (kids n)
+  end.
+Definition walk_local_all (root : dm) : list (list seg * dm) := walk_local (S (dm_depth root)) [] root.
+
+(* resolution by segments without loading links *)
+Fixpoint get_local (n : dm) (p : list seg) : res gerr dm :=
+  match p with [] => Ok n | sg :: r => do v <- step n sg; get_local v r end.
+
+(* the Path API the walks use *)
+Definition path_append_string (p : list seg) (s : bytes) : list seg := p ++ [SegS s].
+Definition path_append_int (p : list seg) (i : Z) : list seg := p ++ [seg_of_int i].
+Definition path_join (p q : list seg) : list seg := p ++ q.
+(* Truncate(i): p.segments[0:i] — a slice-bounds panic outside 0..len *)
+Definition path_truncate (p : list seg) (i : Z) : option (list seg) :=
+  if (i <? 0) || (Z.of_nat (length p) <? i) then None else Some (firstn (Z.to_nat i) p).
+Definition path_pop (p : list seg) : list seg := removelast p.
+Definition path_shift (p : list seg) : option seg * list seg :=
+  match p with [] => (None, []) | x :: r => (Some x, r) end.
+Definition path_last (p : list seg) : option seg := last (map Some p) None.
